@@ -10,7 +10,8 @@ META = {
             "trigger read off the observed trace); a refusal implies the observed consecutive failures reached the limit within "
             "the last lockout period (C24_no_spurious); a success deletes the record and a new refusal needs `limit` new failures "
             "(C24_success_clears); the answers one user gets are unchanged when all other users' attempts are erased "
-            "(C24_independent); limit 0 never refuses from any state (C24_limit_zero_never_locks); the pruner never unlocks "
+            "(C24_independent); limit 0 never refuses from any state, so also right after the setting is changed to 0 while lockout "
+            "records exist (C24_limit_zero_never_locks, C24_limit_zero_after_reconfig); the pruner never unlocks "
             "(C24_prune_never_unlocks). The model is tied to the code by running the real Session.Authenticate (counting user "
             "store => 'password not consulted' is observed) and the real limiter functions inside testing/synctest bubbles "
             "(virtual clock) on generated histories, comparing every answer and the content of loginAttempts with the model, "
@@ -31,7 +32,7 @@ META = {
 
 REQUIRED = ["C24_lock_window", "C24_locked_partial", "C24_locked_counterexample", "C24_no_spurious",
             "C24_success_clears", "C24_independent", "C24_independent_step", "C24_limit_zero_never_locks",
-            "C24_limit_zero_history", "C24_prune_never_unlocks", "C24_prune_forgets_only_stale",
+            "C24_limit_zero_history", "C24_limit_zero_after_reconfig", "C24_prune_never_unlocks", "C24_prune_forgets_only_stale",
             "C24_old_guard_counterexample"]
 
 
@@ -59,8 +60,10 @@ def run(ctx):
         ctx.fail(f["class"], f["what"], input=f.get("input"), got=f.get("got"), want=f.get("want"))
     st = (ctx.read_jsonl("c24_stats.json") or [{}])[0]
     c = st.get("counters", {})
-    if rc == 0 and (c.get("att.locked", 0) == 0 or c.get("att.at-unlock-instant", 0) == 0 or c.get("histories.indep", 0) == 0):
-        ctx.broken.append("harness coverage collapsed: no refused attempt / no attempt at an unlock instant / no independence run")
+    if rc == 0 and (c.get("att.locked", 0) == 0 or c.get("att.at-unlock-instant", 0) == 0 or c.get("histories.indep", 0) == 0
+                    or c.get("att.limit-zero-in-window", 0) == 0):
+        ctx.broken.append("harness coverage collapsed: no refused attempt / no attempt at an unlock instant / no independence run / "
+                          "no attempt with the limit set to 0 while a lockout is running")
     if c.get("truncated"):
         ctx.notes.append("harness stopped at its real-time deadline (the real pruner goroutine fires after 5 real minutes)")
     ctx.coverage.update({
@@ -70,7 +73,10 @@ def run(ctx):
                 "permission) x right/wrong/empty password, limits {0..6, unset, -2}, 12 lockout settings (1ns..1h, unset, invalid); "
                 "time steps aimed at lockout-1/lockout/lockout+1, the exact unlock instant of the focus user and the pruner's "
                 "2x-lockout boundary; prune as an operation; non-trivial = distinct history in which a lockout actually began and "
-                "the clock moved; 'raw' histories call the limiter functions in arbitrary order (correspondence only); every 4th "
+                "the clock moved; in 40% of the histories the settings CHANGE on the way (operation cfg: limit and/or lockout period, "
+                "aimed at limit 0 while the focus user's lockout is running, and back; the oracle counts a failure against the limit in "
+                "force at that attempt, lets a lockout last for the period in force when it began, and demands that nothing is refused "
+                "while the limit is 0); 'raw' histories call the limiter functions in arbitrary order (correspondence only); every 4th "
                 "history is re-run with all other users erased (independence)",
         "samples": st.get("samples", []),
         "counters": c,
